@@ -34,7 +34,7 @@ def radix_and_exponent(rep, F, rule='R-TABLE'):
     for fn in fns:
         rep.add_functions([fn.name])
         try:
-            paths = TB.PathEnum(F, fn, max_paths=400).run()
+            paths = TB.PathEnum(F, fn, max_paths=800, cut_loops=True).run()
         except TB.Undecided as e:
             rep.undecided(rule, fn.key + ':radix', 'paths not enumerable: %s' % e, fn.where())
             continue
@@ -105,7 +105,7 @@ def head_of_numeral(rep, F, rule='HEAD-OF-NUMERAL'):
     n = 0
     for fn in fns:
         try:
-            pe = TB.PathEnum(F, fn, max_paths=400)
+            pe = TB.PathEnum(F, fn, max_paths=800, cut_loops=True)
             paths = pe.run()
         except TB.Undecided as e:
             rep.undecided(rule, fn.key + ':sign-only-at-head', str(e), fn.where())
